@@ -127,6 +127,7 @@ structure CoreSt where
   rmPlaced : List String := []   -- keys the RM itself reported as bound (external placement / recovery)
   lostInflight : List String := []   -- real halves of cross-node replacements whose ask was released while in flight (known class I7r)
   lostTimeout : List String := []    -- … whose ask was dropped by the placeholder timeout of a not yet running application (known class I7o)
+  swapRolledBack : List String := [] -- applications whose in-flight swap was rolled back by the removal of a node (known class C10 …+swap-rolled-back)
 
 def firstSome (l : List (Unit → Option String)) : Option String := l.findSome? (fun f => f ())
 
@@ -330,8 +331,19 @@ def coreStep (st : CoreSt) (j : Json) : Except String (CoreSt × String) := do
         (pre.liveApps.map (fun a => (a.items.filter (fun i => i.inflightReal && a.id == (jStr (fldD j "app" (.str ""))).toOption.getD "")).map (·.key))).flatten
     | none => []
   let lostT := st.lostTimeout ++ timedOutNow
-  let st' : CoreSt := { st' with lostInflight := lost, lostTimeout := lostT }
+  -- Known class (KNOWN_FINDINGS C10): a node is removed while a swap of the application is in flight: its allocations on
+  -- the node are released (the application becomes Completing when they were its last ones) and only then the swap is
+  -- rolled back: the real ask is pending again in a Completing application
   let keyOf (f : String) : String := ((f.splitOn " ").getLast!.splitOn "@").head!
+  let rolledNow : List String := match st.prev with
+    | some pre => if !(op == "node" && (jStr (fldD j "action" (.str ""))).toOption.getD "" == "decommission") then [] else
+        (pre.liveApps.filter (fun a => a.items.any (·.inflightReal))).map (·.id)
+    | none => []
+  let rolled := st.swapRolledBack ++ rolledNow
+  let st' : CoreSt := { st' with lostInflight := lost, lostTimeout := lostT, swapRolledBack := rolled }
+  let fails := fails.map (fun f =>
+      if f.startsWith "C10.completing-with-pending-ask " && rolled.contains (keyOf f) then
+        "C10.completing-with-pending-ask+swap-rolled-back-by-node-removal " ++ keyOf f else f)
   let fails := fails.map (fun f =>
       if (f.startsWith "C03.I7 allocation not listed by its application " || f.startsWith "C03.I7 allocation of unknown application ") && lost.contains (keyOf f) then "C03.I7r " ++ (f.drop 7).toString
       else if (f.startsWith "C03.I7 allocation not listed by its application " || f.startsWith "C03.I7 allocation of unknown application ") && lostT.contains (keyOf f) then "C03.I7o " ++ (f.drop 7).toString
